@@ -149,13 +149,16 @@ def liveEntries (idx : Index) (order : List (Nat × Nat)) : List (Op × Nat) :=
 
 inductive EP where
   | locked      -- write-trigger / close-trigger / force-API: runCompactionLocked → Compactor.Compact
-  | fromIndex   -- Load self-heal: CompactFromIndex
+  | fromIndex   -- Load self-heal: Load's temp cleanup, then CompactFromIndex
   | cli         -- hydraidectl compact: Compactor.Compact directly
   deriving DecidableEq, Repr
 
+/-- is the temp removed (by the entry point's own prologue or by the compaction body) before
+    `NewFileWriterWithName` opens it?  Either removal yields the same operation log: an `unlink`
+    when the file exists (a second removal of a missing file is not an operation). -/
 def EP.rmFirst (c : Cfg) : EP → Bool
   | .locked => c.rmTempLocked || c.rmTempCompactor
-  | .fromIndex => c.rmTempFromIndex
+  | .fromIndex => c.loadCleansTemp || c.rmTempFromIndex
   | .cli => c.rmTempCompactor
 
 /-- one compaction through entry point `ep`; no operation at all when the main file does not load -/
